@@ -47,6 +47,7 @@ def main():
         return 2
     conf = {'at': time.strftime('%Y-%m-%d %H:%M:%S'), 'repo_head': sh('git rev-parse --short HEAD', cwd=REPO)[1].strip(), 'checks': {}}
     demo = os.path.join(d, 'demo.py')
+    replays = []
     try:
         rc, out = sh(f'git apply {d}/patch.diff', cwd=REPO)
         if rc != 0:
@@ -70,12 +71,24 @@ def main():
             detail = [l.strip() for l in out.splitlines() if l.startswith('   ')][:3]
             conf['checks'][c] = {'rc': rc, 'violation_lines': len(viol), 'first': detail[:2], 'wall_s': round(time.time() - t0, 1), 'tier': a.tier}
             print(f'check {c}: rc={rc} violations={len(viol)} {detail[:1]}')
+            # the first replay file must reproduce (twice, identically) without the explorer while the change is applied ...
+            if viol:
+                rp = viol[0].split('replay=')[-1].strip()
+                rrc, rout = sh(f'./check {c} --replay {rp}', cwd=VERIF, timeout=1800)
+                conf['checks'][c]['replay_with_change_rc'] = rrc
+                replays.append((c, rp))
+                print(f'   replay with change rc={rrc} (must be 1)')
     finally:
         sh('git checkout -- .', cwd=REPO)
     if os.path.exists(demo):
         rc, out = sh(f'{PY} {demo}', cwd=REPO, timeout=900)
         conf['demo_without_change_rc'] = rc
         print('demo without change rc =', rc, '(must be 0)')
+    # ... and must pass on the unchanged tree
+    for c, rp in replays:
+        rrc, rout = sh(f'./check {c} --replay {rp}', cwd=VERIF, timeout=1800)
+        conf['checks'][c]['replay_without_change_rc'] = rrc
+        print(f'   replay without change rc={rrc} (must be 0)')
     conf['detected_by'] = [c for c, r in conf['checks'].items() if r['rc'] == 1 and r['violation_lines'] > 0]
     meta['confirmation'] = conf
     json.dump(meta, open(meta_p, 'w'), indent=1)
